@@ -150,6 +150,36 @@ def check_cfg(ctx, fx, cfg):
                                     one = True
                         src_ok = src_ok and one
                 ctx.require(ok and src_ok, "R10.3", "self-weak-sender:%s@%s" % (api, cfg), "the timer must submit through a weak sender of its own context", fn=f["def"], site=t["l"])
+    # an API may hand its (sleep-less) submitting future to another timer API (`delayed_send` = `delayed_exec(async { send }, d)`):
+    # it is then covered by that API's protocol; what it submits through is still judged here
+    for name in PERIODIC + ONESHOT:
+        if name in seen:
+            continue
+        af = fx.fn("context::Context::<A>::" + name)
+        if af is None:
+            continue
+        ab = ctx.body(fx, af)
+        deleg = [t for _, t in ab.normal_calls() if (t.get("resolved") or t.get("callee") or "").startswith("context::Context::<A>::") and (t.get("resolved") or t.get("callee")).split("::")[-1] in seen]
+        if len(deleg) != 1:
+            continue
+        ok_all = True
+        n_sub = 0
+        for _bi, _si, st in agg_sites(ab, ak="coroutine"):
+            co = fx.fn(st["r"]["def"])
+            if co is None:
+                continue
+            cb = ctx.body(fx, co)
+            for _cb, ct in cb.normal_calls():
+                if is_submit(ct):
+                    n_sub += 1
+                    rs = roots(cb, ct["args"][0])
+                    good = bool(rs) and all(r.kind == "upvar" for r in rs)
+                    if good:
+                        idx = next(iter(rs)).site
+                        good = any(o.kind == "call" and ab.call_at(o).get("callee") == "context::Context::<A>::weak_sender" and all(r.kind == "arg" for r in roots(ab, ab.call_at(o)["args"][0])) for o in ab.origins(st["r"]["ops"][idx]))
+                    ok_all = ok_all and good
+        ctx.require(ok_all and n_sub >= 1, "R10.3", "self-weak-sender:%s@%s" % (name, cfg), "the timer must submit through a weak sender of its own context", fn=af["def"], site=af["loc"])
+        seen.add(name)
     ctx.require(set(PERIODIC + ONESHOT) <= seen, "R10.1", "api-set@" + cfg, "timer APIs missing: %s" % sorted(set(PERIODIC + ONESHOT) - seen), detail=sorted(seen))
     # R10.2 per-runtime sleep
     for f in fx.impl_fns("actor::spawner::Spawner"):
